@@ -704,6 +704,88 @@ fn family_defaults(run: &Run, cnt: &Cnt) -> u64 {
   tables
 }
 
+/// Entries over input values of the other kinds (boolean, string, date, time, date and time, durations): a literal, a
+/// disjunction, their negations, and - for the ordered kinds - comparisons, intervals and their negations. One table per
+/// kind under COLLECT: the result lists exactly the rules whose entry the input satisfies.
+fn family_entry_kinds(run: &Run, cnt: &Cnt) -> u64 {
+  // (typeRef, three values in ascending order (two for boolean), ordered)
+  let kinds: Vec<(&str, Vec<&str>, bool)> = vec![
+    ("boolean", vec!["false", "true"], false),
+    ("string", vec!["\"a\"", "\"b\"", "\"c\""], true),
+    ("date", vec!["date(\"2020-01-01\")", "date(\"2020-01-02\")", "date(\"2021-06-15\")"], true),
+    ("time", vec!["time(\"10:00:00Z\")", "time(\"11:00:00Z\")", "time(\"12:30:00Z\")"], true),
+    ("dateTime", vec!["date and time(\"2020-01-01T10:00:00Z\")", "date and time(\"2020-01-01T11:00:00Z\")", "date and time(\"2021-06-15T00:00:00Z\")"], true),
+    ("dayTimeDuration", vec!["duration(\"P1D\")", "duration(\"P2D\")", "duration(\"P3DT1H\")"], true),
+    ("yearMonthDuration", vec!["duration(\"P1Y\")", "duration(\"P2Y\")", "duration(\"P3Y1M\")"], true),
+  ];
+  let mut tables = 0u64;
+  for (type_ref, vals, ordered) in &kinds {
+    tables += 1;
+    cnt.tables.fetch_add(1, Ordering::Relaxed);
+    let v = |i: usize| vals[i.min(vals.len() - 1)];
+    // (entry text, predicate over the index of the input value)
+    let mut entries: Vec<(String, Box<dyn Fn(usize) -> bool>)> = vec![
+      (v(0).to_string(), Box::new(|i| i == 0)),
+      (format!("not({})", v(0)), Box::new(|i| i != 0)),
+      (format!("{}, {}", v(0), v(1)), Box::new(|i| i <= 1)),
+      (format!("not({}, {})", v(0), v(1)), Box::new(|i| i > 1)),
+      (format!("not({})", v(1)), Box::new(|i| i != 1)),
+      ("-".to_string(), Box::new(|_| true)),
+    ];
+    if *ordered {
+      entries.push((format!("< {}", v(1)), Box::new(|i| i < 1)));
+      entries.push((format!(">= {}", v(1)), Box::new(|i| i >= 1)));
+      entries.push((format!("not(< {})", v(1)), Box::new(|i| i >= 1)));
+      entries.push((format!("[{}..{}]", v(0), v(1)), Box::new(|i| i <= 1)));
+      entries.push((format!("({}..{}]", v(0), v(2)), Box::new(|i| i >= 1)));
+      entries.push((format!("not([{}..{}])", v(0), v(1)), Box::new(|i| i > 1)));
+      entries.push((format!("not(<= {}, {})", v(0), v(2)), Box::new(|i| i == 1)));
+    }
+    let table = dmn::Table {
+      hit_policy: "COLLECT".into(),
+      aggregation: None,
+      output_label: None,
+      inputs: vec![dmn::TableInput { expr: "m".into(), type_ref: None, values: None }],
+      outputs: vec![dmn::TableOutput { name: None, type_ref: None, values: None, default: None }],
+      rules: entries.iter().enumerate().map(|(k, (e, _))| dmn::TableRule { inputs: vec![e.clone()], outputs: vec![format!("{}", k + 1)] }).collect(),
+    };
+    let mut m = dmn::Model::new("https://verif/c03k", "c03k");
+    m.inputs.push(dmn::Input { name: "m".into(), type_ref: type_ref.to_string() });
+    m.decisions.push(dmn::Decision { name: "D".into(), type_ref: None, requires: dmn::Requires { inputs: vec!["m".into()], ..Default::default() }, logic: Some(dmn::Expr::Table(table)) });
+    let xml = m.to_xml();
+    let me = match dmntk_model::parse(&xml).map_err(|e| e.to_string()).and_then(|d| dmntk_model_evaluator::ModelEvaluator::new(&d).map_err(|e| e.to_string())) {
+      Ok(me) => me,
+      Err(e) => {
+        run.violation(&format!("build:entry-kinds:{}", type_ref), &format!("generated table over {} values does not load: {}", type_ref, e), json!({"engine":"c03","xml":xml}));
+        continue;
+      }
+    };
+    for (i, vt) in vals.iter().enumerate() {
+      cnt.evals.fetch_add(1, Ordering::Relaxed);
+      let ctx = match dmntk_feel_evaluator::evaluate_context(&dmntk_feel::Scope::default(), &format!("{{m: {}}}", vt)) {
+        Ok(c) => c,
+        Err(_) => continue,
+      };
+      let expected = format!("[{}]", entries.iter().enumerate().filter(|(_, (_, f))| f(i)).map(|(k, _)| (k + 1).to_string()).collect::<Vec<_>>().join(", "));
+      let got = crate::rval::show_value_full(&me.evaluate_invocable("D", &ctx));
+      cnt.compared.fetch_add(1, Ordering::Relaxed);
+      cnt.nontrivial.fetch_add(1, Ordering::Relaxed);
+      if got != expected {
+        // name the entries that are judged wrongly
+        let got_set: Vec<String> = got.trim_matches(|c| c == '[' || c == ']').split(", ").map(|s| s.to_string()).collect();
+        let wrong: Vec<String> = entries.iter().enumerate().filter(|(k, (_, f))| f(i) != got_set.contains(&(k + 1).to_string())).map(|(_, (e, _))| e.clone()).collect();
+        let negated = wrong.iter().all(|e| e.starts_with("not("));
+        run.violation(
+          &format!("result:entry-kinds:{}:{}", type_ref, if negated { "negated-entries" } else { "entries" }),
+          &format!("COLLECT table over {} entries with m = {}: the rules {} match but {} are prescribed; entries judged wrongly: {:?}", type_ref, vt, got, expected, wrong),
+          json!({"engine":"c03","xml":xml,"invocable":"D","ctx":ctx.to_string(),"expected":expected}),
+        );
+      }
+    }
+  }
+  tables
+}
+
 pub fn run() {
   let run = Run::new("C03");
   let thorough = run.thorough();
@@ -826,6 +908,8 @@ pub fn run() {
     }
   });
   let n_defaults = family_defaults(&run, &cnt);
+  let n_kinds = family_entry_kinds(&run, &cnt);
+  run.set("entry_kind_tables", json!(n_kinds));
   run.set("default_output_tables", json!(n_defaults));
   if let Some(s) = b.get(b.len() / 2) {
     run.sample(json!({"family":"hit-policy","policy":s.policy.name(),"rules":s.rules.len(),"outputs":s.outputs.len(),"xml_excerpt":s.xml().chars().take(600).collect::<String>()}));
